@@ -8,8 +8,27 @@ The reference model is plain Python over the parameters."""
 SRC = '''
 from pymtl3 import *
 
+def mk_msg_{uid}(n):
+  # struct types that share the class name and the field names and differ only in the shape of a list field
+  return mk_bitstruct("Msg_{uid}", {{"tag": Bits4, "l": [Bits8] * n}})
+
 class Lane_{uid}(Component):
   def construct(s, mode, cap, inc, k):
+    T = mk_msg_{uid}(cap + 1)
+    s.snext = Wire(T)
+    s.sreg = Wire(T)
+    s.so = OutPort(Bits8)
+    @update
+    def up_snext():
+      s.snext.tag @= s.a[0:4]
+      for j in range(cap + 1):
+        s.snext.l[j] @= s.a + j
+    @update_ff
+    def up_sreg():
+      s.sreg <<= s.snext
+    @update
+    def up_so():
+      s.so @= s.sreg.l[cap] + zext(s.sreg.tag, 8)
     s.a = InPort(Bits8)
     s.b = InPort(Bits8)
     s.sel = InPort(Bits1)
@@ -50,6 +69,7 @@ class Top_{uid}(Component):
     s.sel = InPort(Bits1)
     s.o = [OutPort(Bits8) for _ in range(n)]
     s.q = [OutPort(Bits8) for _ in range(n)]
+    s.so = [OutPort(Bits8) for _ in range(n)]
     s.lane = [Lane_{uid}(*p) for p in params]
     # a free-running tick counter: tells the harness how many edges sim_reset() applied
     s.cnt = OutPort(Bits8)
@@ -62,6 +82,7 @@ class Top_{uid}(Component):
       s.lane[i].sel //= s.sel
       s.o[i] //= s.lane[i].o
       s.q[i] //= s.lane[i].q
+      s.so[i] //= s.lane[i].so
 '''
 
 
@@ -89,6 +110,7 @@ class Ref:
   def __init__(self, params):
     self.p = params
     self.bank = [[[0] * 4 for _ in range(2)] for _ in params]
+    self.sreg = [(0, [0] * (p[1] + 1)) for p in params]
 
   def comb(self, inp):
     o, q = [], []
@@ -101,6 +123,9 @@ class Ref:
       q.append(bank[0][inc] ^ bank[1][cap])
     return o, q
 
+  def so(self):
+    return [(self.sreg[i][1][cap] + self.sreg[i][0]) & 0xff for i, (mode, cap, inc, k) in enumerate(self.p)]
+
   def tick(self, inp):
     for i, (mode, cap, inc, k) in enumerate(self.p):
       old = self.bank[i]
@@ -109,3 +134,5 @@ class Ref:
       for bb in range(2):
         new[bb][inc] = (old[bb][cap] + 1) & 0xff
       self.bank[i] = new
+      a = inp["a"][i]
+      self.sreg[i] = (a & 15, [(a + j) & 0xff for j in range(cap + 1)])
